@@ -80,5 +80,8 @@ def nth_byte(b, i):
 
 
 def bit(word, i):
-    """bit i (0 = least significant) of the big-endian integer value of bytes `word`"""
+    """bit i (0 = least significant) of the big-endian integer value of bytes `word`;
+    total: 0 for an index outside the word"""
+    if i < 0:
+        return 0
     return (int.from_bytes(word, "big") >> i) & 1
